@@ -1,7 +1,7 @@
 /- Line-protocol driver for the C04 model: one JSON op per line in, one canonical answer per line out.
    Characters travel as code-point arrays.  Configurations are looked up in the GENERATED table by (dialect, kind, pass). -/
 import Lean.Data.Json
-import SqlglotModel.Model.Str
+import SqlglotModel.Model.StrLex
 import SqlglotModel.Generated.C04
 
 open Lean (Json)
@@ -19,7 +19,21 @@ def getCfg (j : Json) : Except String (Bool × Cfg) := do
   match SqlglotModel.Generated.C04.dialects.find? (·.name == d) with
   | none => throw s!"no dialect {d}"
   | some e =>
-    match (if kind == "str" then e.strCfgs else e.idCfgs)[k]? with
+    match (if kind == "str" then e.strCfgs else if kind == "byte" then e.byteCfgs else e.idCfgs)[k]? with
+    | none => throw "no such pass"
+    | some c => pure c
+
+def kindName : TokKind → String
+  | .str => "str" | .national => "national" | .byte => "byte" | .raw => "raw" | .unicode => "unicode"
+  | .hex => "hex" | .bit => "bit" | .heredoc => "heredoc" | .ident => "ident" | .other => "other"
+
+def getLex (j : Json) : Except String LexCfg := do
+  let d ← (← j.getObjVal? "d").getStr?
+  let k ← (← j.getObjVal? "k").getNat?
+  match SqlglotModel.Generated.C04.dialects.find? (·.name == d) with
+  | none => throw s!"no dialect {d}"
+  | some e =>
+    match e.lex[k]? with
     | none => throw "no such pass"
     | some c => pure c
 
@@ -49,6 +63,20 @@ def handle (line : String) : Except String String := do
     match scanCL (← (← j.getObjVal? "nested").getBool?) (← jChars (← j.getObjVal? "s")) with
     | none => pure "none"
     | some r => pure ("some " ++ toString r.length)
+  | "lex" =>
+    let L ← getLex j
+    let sp ← jChars (← j.getObjVal? "sp")
+    let isSpace := fun x => sp.contains x
+    match lexLoop L isSpace (otherSimple L isSpace) (← jChars (← j.getObjVal? "s")) with
+    | none => pure "unsupported"
+    | some none => pure "err"
+    | some (some ts) => pure ("ok " ++ ";".intercalate (ts.map fun t => kindName t.kind ++ ":" ++ showChars t.text))
+  | "mc" =>
+    let sp ← jChars (← j.getObjVal? "sp")
+    let cs ← (← (← j.getObjVal? "cs").getArr?).toList.mapM jChars
+    pure (showChars (maybeComment (fun x => sp.contains x) (← jChars (← j.getObjVal? "sql")) cs))
+  | "bytesql" => pure (showChars (byteSql (← getCfg j).2 (← jChars (← j.getObjVal? "v"))))
+  | "rawsql" => pure (showChars (rawSql (← getCfg j).2 (← jChars (← j.getObjVal? "v"))))
   | _ => throw "unknown op"
 
 partial def loop (h : IO.FS.Stream) : IO Unit := do
